@@ -384,7 +384,7 @@ _gids_map_update (gids_t gids)
     gids->timer = 0;
     if (gids->interval_secs > 0) {
         gids->timer = timer_set_relative ((callback_f) _gids_map_update, gids,
-                gids->interval_secs * 1000);
+                (long) gids->interval_secs * 1000);
         if (gids->timer < 0) {
             log_errno (EMUNGE_SNAFU, LOG_ERR,
                     "Failed to schedule gids map update");
